@@ -90,7 +90,7 @@ def _fresh(case, d, name):
 def _root(ctx, prevent=False):
     f = trees.t0
     if ctx is not None:
-        f = f.with_context_args(dict(ctx))
+        f = trees.attach(f, ctx, trees.STATE.get("attach_twice"))
     if prevent:
         f = f.with_prevent_further_calls(True)
     return f
@@ -143,6 +143,8 @@ def execute(case, scratch):
         os.makedirs(files)
         prog, x = case["program"], case["x"]
         c1, c2 = case["ctx1"], case["ctx2"]
+        # (context arguments are attached to a function that already carries a look-alike of them: 1 / True / 1.0 ...)
+        trees.STATE["attach_twice"] = bool(case.get("attach_twice"))
         _fresh(case, d, "main")
         model = Model(prog)
         # run 1
@@ -277,7 +279,7 @@ def execute(case, scratch):
         overrides_below = _has_override_below_inherited(prog, c1) or _has_override_below_inherited(prog, c2)
         shared = _norm(c1) != _norm(c2) and len(model.store) > 2
         out.nontrivial = overrides_below or shared
-        out.labels = out.labels + ["backend:" + case["backend"]] + (["override-below-inherited"] if overrides_below else []) + \
+        out.labels = out.labels + ["backend:" + case["backend"]] + (["context-attached-over-a-look-alike"] if case.get("attach_twice") else []) + (["override-below-inherited"] if overrides_below else []) + \
             (["two-contexts"] if _norm(c1) != _norm(c2) else []) + (["empty-override"] if _has_empty_override(prog) else [])
         out.nt_key = [prog, c1, c2]
         return out
@@ -320,10 +322,10 @@ def replay(case, ctx):
 
 def strategy(thorough):
     from hypothesis import strategies as st
-    rootctx = st.one_of(st.none(), st.just({}), st.dictionaries(st.sampled_from(["tenant", "asof", "k"]), st.sampled_from(["a", "b", 1, 2]), min_size=1, max_size=2))
-    return st.builds(lambda p, x, a, b, be: {"program": p, "x": x, "ctx1": a, "ctx2": b, "backend": be},
+    rootctx = st.one_of(st.none(), st.just({}), st.dictionaries(st.sampled_from(["tenant", "asof", "k"]), st.sampled_from(["a", "b", 1, 2, True, 0]), min_size=1, max_size=2))
+    return st.builds(lambda p, x, a, b, be, tw: {"program": p, "x": x, "ctx1": a, "ctx2": b, "backend": be, "attach_twice": tw},
                      trees.program_strategy(with_ctx=True, max_nodes=7 if thorough else 5), st.integers(0, 1), rootctx, rootctx,
-                     st.sampled_from(["mem", "mem", "fs", "fsc"]))
+                     st.sampled_from(["mem", "mem", "fs", "fsc"]), st.booleans())
 
 
 def run_shard(ctx):
